@@ -1505,9 +1505,21 @@ theorem CompleteStmts.ext {s s' : St} (h : Ext s s') {ctx : Nat} (sts : List Stm
 theorem ExtObjs.of_reg {s s' : St} (h : s'.reg = s.reg) : ExtObjs s s' :=
   fun i o ho => ⟨o, by rw [h]; exact ho, rfl, fun _ _ h => h, fun _ h => h⟩
 
+/-- the bases that were resolved when their class statement was visited are class objects -/
+def CBase (s : St) : Prop :=
+  ∀ e ∈ s.cinfo, ∀ b, some b ∈ e.2.objs → ∃ o : Obj, s.reg.objs[b]? = some o ∧ o.cls = .cls
+
+theorem CBase.ext {s s' : St} (h : CBase s) (he : Ext s s') (hc : s'.cinfo = s.cinfo) : CBase s' := by
+  intro e hm b hb
+  rw [hc] at hm
+  obtain ⟨o, ho, hcl⟩ := h e hm b hb
+  obtain ⟨o', ho', hc', _⟩ := he.objs b o ho
+  exact ⟨o', ho', hc'.trans hcl⟩
+
 /-- **the invariant of reachable, well-behaved states** -/
 structure PdInv (proj : Project) (s : St) : Prop where
   reg : Inv s.reg
+  cbase : CBase s
   lens : s.ps.length = proj.length ∧ s.alls.length = proj.length
   mods : ∀ m, m < proj.length → ∃ o, s.reg.objs[m]? = some o ∧ path s.reg m = some (pathOf proj m) ∧ o.cls = modCls proj m
   site : ∀ i o, s.reg.objs[i]? = some o → ∃ S, ObjKind proj S o.cls ∧ path s.reg i = some (sitePath proj S)
@@ -1555,8 +1567,8 @@ theorem pdInv_setAlias {proj : Project} {rank : List Nat} (wf : WFacts proj rank
     PdInv proj (setAlias s ctx k v) := by
   have hext := setAlias_ext s ctx k v
   refine
-    { reg := ?_, lens := hI.lens, mods := ?_, site := ?_, alias := ?_, cont := ?_, alls := hI.alls, started := ?_,
-      complete := ?_ }
+    { reg := ?_, cbase := hI.cbase.ext hext rfl, lens := hI.lens, mods := ?_, site := ?_, alias := ?_, cont := ?_,
+      alls := hI.alls, started := ?_, complete := ?_ }
   · exact inv_congr hI.reg (modify_aliases_agree _ _ _)
   · intro m hm
     obtain ⟨o, ho, hpm, hc⟩ := hI.mods m hm
@@ -1716,7 +1728,8 @@ theorem pdInv_addObj {proj : Project} {rank : List Nat} (wf : WFacts proj rank) 
     · intro k' hk'; split <;> exact hk'
   refine ⟨?_, hext, by simp [objsAfterAdd_length], objsAfterAdd_get_new hlt, hnewpath, ?_, rfl, rfl, rfl⟩
   · refine
-      { reg := by rw [he] at hinv; exact hinv, lens := hI.lens, mods := ?_, site := ?_, alias := ?_, cont := ?_,
+      { reg := by rw [he] at hinv; exact hinv, cbase := hI.cbase.ext hext rfl, lens := hI.lens, mods := ?_, site := ?_,
+        alias := ?_, cont := ?_,
         alls := hI.alls, started := ?_, complete := ?_ }
     · intro m hm
       obtain ⟨o, ho, hpm, hc⟩ := hI.mods m hm
@@ -2524,18 +2537,51 @@ theorem enterClass_ok {proj : Project} {rank : List Nat} (wf : WFacts proj rank)
   obtain ⟨h1, h2, hlen, hnew, hpn, ⟨po, hpo, hd⟩, hps', hal', hci'⟩ :=
     pdInv_addObj wf hI hb1 hc.pathc hc.body hst (st := .classDef n bs body) rfl hps (hc.static hI)
   -- the class information recorded for the second pass does not matter here
-  obtain ⟨ci, he⟩ : ∃ ci : List (Nat × ClsInfo), enterClass ctx n bs s = { addObj s .cls n ctx with cinfo := ci } := by
+  obtain ⟨ci, he, hci⟩ : ∃ ci : List (Nat × ClsInfo), enterClass ctx n bs s = { addObj s .cls n ctx with cinfo := ci } ∧
+      ∀ e ∈ ci, e ∈ (addObj s .cls n ctx).cinfo ∨ ∀ b, some b ∈ e.2.objs → isClassObj s.reg b = true := by
     unfold enterClass at hb ⊢
     simp only at hb ⊢
     obtain ⟨_, hmb⟩ := markBad_bad hb
-    exact ⟨_, hmb⟩
+    refine ⟨_, hmb, ?_⟩
+    intro e hm
+    rcases List.mem_append.1 hm with hm | hm
+    · exact Or.inl hm
+    · right
+      simp only [List.mem_singleton] at hm; subst hm
+      intro b hbm
+      simp only [List.mem_map] at hbm
+      obtain ⟨x, ⟨bp, _, rfl⟩, hx⟩ := hbm
+      cases hxe : Names.expandName (envOf s) ctx bp with
+      | none => simp [hxe] at hx
+      | some p =>
+        simp only [hxe] at hx
+        cases hof : Names.objFor (envOf s) p with
+        | none => simp [hof] at hx
+        | some o =>
+          simp only [hof] at hx
+          by_cases hcl : isClassObj s.reg o = true
+          · simp only [hcl, if_true, Option.some.injEq] at hx; subst hx; exact hcl
+          · simp [hcl] at hx
+  have hcb2 : CBase { addObj s .cls n ctx with cinfo := ci } := by
+    intro e hm b hbm
+    rcases hci e hm with hold | hnewc
+    · exact h1.cbase e hold b hbm
+    · have hcl := hnewc b hbm
+      unfold isClassObj at hcl
+      cases hg : getObj s.reg b with
+      | none => simp [hg] at hcl
+      | some o =>
+        simp only [hg, beq_iff_eq] at hcl
+        obtain ⟨o', ho', hc', _⟩ := h2.objs b o hg
+        exact ⟨o', ho', hc'.trans hcl⟩
+  clear hci
   rw [he]
   generalize addObj s .cls n ctx = s1 at *
   have hext1 : Ext s1 { s1 with cinfo := ci } :=
     ⟨fun i o h => ⟨o, h, rfl, fun _ _ h => h, fun _ h => h⟩, fun _ _ h => h, fun t => ⟨id, id, fun h => by
       show getPs s1 t ≠ _; rw [h]; simp⟩⟩
   have hI2 : PdInv proj { s1 with cinfo := ci } :=
-    { reg := h1.reg, lens := h1.lens, mods := h1.mods, site := h1.site, alias := h1.alias, cont := h1.cont,
+    { reg := h1.reg, cbase := hcb2, lens := h1.lens, mods := h1.mods, site := h1.site, alias := h1.alias, cont := h1.cont,
       alls := h1.alls, started := h1.started,
       complete := fun m md hm hp => CompleteStmts.ext hext1 _ (h1.complete m md hm hp) }
   refine ⟨hI2, h2.trans hext1, ?_, ⟨po, hpo, hd⟩⟩
@@ -2657,6 +2703,9 @@ theorem processModule_ok {proj : Project} {rank : List Nat} (wf : WFacts proj ra
       have hbody : bodyOf proj m = proj[m].body := bodyOf_eq hmd
       have hI2 : PdInv proj s2 :=
         { reg := hreg2 ▸ hI.reg
+          cbase := by
+            have := hI.cbase
+            rw [← hs2]; exact this
           lens := by rw [← hs2]; simp [hI.lens]
           mods := by rw [hreg2]; exact hI.mods
           site := by rw [hreg2]; exact hI.site
@@ -2697,6 +2746,7 @@ theorem processModule_ok {proj : Project} {rank : List Nat} (wf : WFacts proj ra
       refine ⟨?_, ?_, by rw [hps4]; simp⟩
       · exact
           { reg := hI3.reg
+            cbase := hI3.cbase
             lens := by simp [hI3.lens]
             mods := hI3.mods, site := hI3.site, alias := hI3.alias, cont := hI3.cont, alls := hI3.alls
             started := by
@@ -2928,6 +2978,7 @@ theorem initSt_ok {proj : Project} {rank : List Nat} (wf : WFacts proj rank) :
     intro i o ho; rw [← hI.len]; exact (List.getElem?_eq_some_iff.1 ho).1
   exact
     { reg := hI.reg
+      cbase := by intro e hm; rw [hI.cinfo] at hm; cases hm
       lens := by rw [hI.ps, hI.alls]; simp
       mods := fun m hm => by obtain ⟨o, ho, hp, hc, _⟩ := hI.mods m hm; exact ⟨o, ho, hp, hc⟩
       site := by
